@@ -140,24 +140,26 @@ def h_getpath(**kw) -> bool:
 
 _XSD = """<xs:schema xmlns:xs="http://www.w3.org/2001/XMLSchema" targetNamespace="urn:u1" xmlns="urn:u1" elementFormDefault="qualified">
  <xs:complexType name="A"><xs:sequence><xs:element name="x" type="xs:int"/><xs:element name="y" type="xs:string" minOccurs="0"/></xs:sequence>
-   <xs:attribute name="k" type="xs:int"/><xs:attribute name="ref" type="xs:IDREF"/></xs:complexType>
+   <xs:attribute name="k" type="xs:int"/><xs:attribute name="ref" type="xs:IDREF"/><xs:attribute name="ver" type="xs:int"%s/></xs:complexType>
  <xs:complexType name="B"><xs:sequence><xs:element name="x" type="xs:int"/></xs:sequence><xs:attribute name="k" type="xs:int" use="required"/><xs:attribute name="ref" type="xs:IDREF"/></xs:complexType>
  <xs:element name="r"><xs:complexType><xs:sequence>
-   <xs:element name="a" type="A"/><xs:element name="b" type="B" minOccurs="0" maxOccurs="unbounded"/><xs:element name="c" type="xs:int" minOccurs="0"/>
+   <xs:element name="a" type="A"/><xs:element name="b" type="B" minOccurs="0" maxOccurs="unbounded"/><xs:element name="c" minOccurs="0"><xs:complexType><xs:simpleContent><xs:extension base="xs:int"><xs:attribute name="ver" type="xs:int"%s/></xs:extension></xs:simpleContent></xs:complexType></xs:element>
    <xs:any namespace="##other" processContents="strict" minOccurs="0"/>
   </xs:sequence><xs:attribute name="id" type="xs:int" use="required"/></xs:complexType></xs:element></xs:schema>"""
 _DOCS = {
-    "prefixed": '<p:r xmlns:p="urn:u1" id="1"><p:a k="1"><p:x>1</p:x><p:y>s</p:y></p:a><p:b k="1"><p:x>1</p:x></p:b><p:b k="2"><p:x>2</p:x></p:b><p:c>3</p:c></p:r>',
-    "default": '<r xmlns="urn:u1" id="1"><a k="1"><x>1</x><y>s</y></a><b k="1"><x>1</x></b><b k="2"><x>2</x></b><c>3</c></r>',
+    "prefixed": '<p:r xmlns:p="urn:u1" id="1"><p:a k="1" ver="1"><p:x>1</p:x><p:y>s</p:y></p:a><p:b k="1"><p:x>1</p:x></p:b><p:b k="2"><p:x>2</p:x></p:b><p:c ver="1">3</p:c></p:r>',
+    "default": '<r xmlns="urn:u1" id="1"><a k="1" ver="1"><x>1</x><y>s</y></a><b k="1"><x>1</x></b><b k="2"><x>2</x></b><c ver="1">3</c></r>',
 }
 FAULTS = ["bad-value", "remove", "extra-child", "swap-with-next", "drop-attr", "extra-attr", "bad-attr", "foreign-leaf", "dangling-idref"]
 _ST = {}
 
 
 def _doc_schema():
-    if "schema" not in _ST:
-        _ST["schema"] = xmlschema.XMLSchema10(_XSD)
-    return _ST["schema"]
+    # XSD 1.1: the attribute ver of <a> and <c> is inheritable (the subtree of <a> is validated with a copy of the context)
+    v = CFG.get("xsd", "1.0")
+    if v not in _ST:
+        _ST[v] = xmlschema.XMLSchema11(_XSD % ((' inheritable="true"',) * 2)) if v == "1.1" else xmlschema.XMLSchema10(_XSD % ('', ''))
+    return _ST[v]
 
 
 def pre_fault(fn, node, fault):
@@ -268,7 +270,7 @@ META = {
 def obligations(tier, seed):
     quick = tier == "quick"
     out = []
-    n = 4 if quick else 5
+    n = 4          # 5-node trees do not finish within the thorough budget (measured: 3000 s, inconclusive); thorough widens the tag pool instead
     for k in range(len(NSMAPS)):
         if quick and k == 3:
             continue
@@ -277,6 +279,8 @@ def obligations(tier, seed):
                     "timeout": 600 if quick else 3000, "twin_timeout": 30,
                     "bound": "trees of %d nodes (every parent vector), tags from %r, every target, namespace map %r" % (n, TAGS[:3 if quick else 4], NSMAPS[k])})
     for v in ("prefixed", "default"):
-        out.append({"name": "localise/%s" % v, "fn": "h_localise", "pre": "pre_fault", "args": [["node", "int"], ["fault", "int"]],
-                    "config": {"docvariant": v}, "timeout": 400, "twin_timeout": 30, "bound": "9 nodes x %d fault kinds" % len(FAULTS)})
+        for xsd in ("1.0", "1.1"):
+            out.append({"name": "localise/%s/%s" % (v, xsd), "fn": "h_localise", "pre": "pre_fault", "args": [["node", "int"], ["fault", "int"]],
+                        "config": {"docvariant": v, "xsd": xsd}, "timeout": 400, "twin_timeout": 30,
+                        "bound": "9 nodes x %d fault kinds, XSD %s%s" % (len(FAULTS), xsd, " (inheritable attribute on <a>)" if xsd == "1.1" else "")})
     return out
